@@ -863,8 +863,8 @@ MANIFEST = dict(
           'failing-input oracle. Round 7: the field loop of the constructor with keep_fields / dtype_conversions / except fields / copy as coded '
           '(ctorLoop): result = copy(keep) then convert_dtypes, well formed, provenance (c16_ctor_spec, c16_ctor_wf, c16_ctor_prov, '
           'c16_ctor_no_error), as an operation of a history (c16_ctor_op_refines, c16_ctor_op_frame), as_numpy_record_array = the plain table '
-          '(c16_record_array_is_table); signature defaults and the per-method writers of the four state attributes are regenerated from the '
-          'ast of the current source (c16_*_for_current_source).'),
+          '(c16_record_array_is_table); the defaults of the public parameters and the copy flag in effect inside copy() are regenerated from the '
+          'ast of the current source (c16_ctor_defaults_for_current_source); the per-method writers of the state attributes are evidence only.'),
     note=('Values are small integers (dtype conversion modelled only as far as which column gets which dtype); set_selection whose source shares '
           'memory with its target is outside the model; numpy primitives (fancy indexing, np.append promotion, argsort) are modelled and compared, not verified.'),
     design='DESIGN.md section 4 C16',
